@@ -173,12 +173,15 @@ class Counting:
     ``stall_limit`` consecutive calls on one descriptor that fail or move no
     bytes raise ``Runaway``: no correct retry loop does that, and a broken one
     (retrying EPIPE, writing an empty buffer for ever) would otherwise spin in
-    its thread until the harness gives up on joining it."""
+    its thread until the harness gives up on joining it.  ``byte_budget``
+    bounds the bytes moved per descriptor and direction the same way (a loop
+    that keeps re-sending its last byte makes progress on every call)."""
 
-    def __init__(self, fds, stall_limit=20000):
+    def __init__(self, fds, stall_limit=20000, byte_budget=None):
         self.fd = {int(f): _FdStats() for f in fds}
         self.other = _FdStats()
         self.stall_limit = stall_limit
+        self.byte_budget = byte_budget
 
     def _st(self, fd):
         return self.fd.get(fd, self.other)
@@ -190,6 +193,8 @@ class Counting:
         if st.w_stall > self.stall_limit:
             raise Runaway('%d consecutive write calls without progress'
                           % self.stall_limit)
+        if self.byte_budget is not None and st.w_bytes > self.byte_budget:
+            raise Runaway('more than %d bytes written' % self.byte_budget)
         n = os.write(fd, buf)
         if n:
             st.w_stall = 0
@@ -205,6 +210,8 @@ class Counting:
         if st.r_stall > self.stall_limit:
             raise Runaway('%d consecutive read calls without progress'
                           % self.stall_limit)
+        if self.byte_budget is not None and st.r_bytes > self.byte_budget:
+            raise Runaway('more than %d bytes read' % self.byte_budget)
         chunk = os.read(fd, n)
         if chunk:
             st.r_stall = 0
